@@ -1,5 +1,11 @@
 package vm
 
+import (
+	"math/big"
+
+	"github.com/ethereum/go-ethereum/params"
+)
+
 // Harnesses for C31 (two-dimensional gas accounting), package core/vm.
 //
 // Frame invariant Inv(g; E0, S0), over the integers:
@@ -295,4 +301,10 @@ func zzH_C31_contract_wrappers() {
 	}
 	zzObserve("exec", c.Gas.ExecutionGas)
 	zzObserve("state", c.Gas.StateGas)
+}
+
+// ZZBareEVM is an EVM that carries only what transaction settlement reads: the chain
+// configuration and the block number (overlay helper for the harnesses in package core).
+func ZZBareEVM(cfg *params.ChainConfig, number *big.Int) *EVM {
+	return &EVM{chainConfig: cfg, Context: BlockContext{BlockNumber: number}}
 }
